@@ -424,3 +424,230 @@ Definition run_line4 (line : string) : string :=
       else run_line3 line
   | _ => "badline"
   end.
+
+(** * config mode (C20): a history of configuration calls; after every call the reported
+    settings and the behaviour bits (is_class_ignored on the probe names) are printed. *)
+From RV Require Import Model.Config.
+
+Definition p_opt_str (t : string) : option (option string) :=
+  match t with
+  | String "-" "" => Some None
+  | String "S" h => option_map Some (unhex h)
+  | _ => None
+  end.
+
+Definition p_opt_bool (t : string) : option (option bool) :=
+  if String.eqb t "-" then Some None else option_map Some (p_bool t).
+
+Fixpoint p_entries (n : nat) (ts : list string) : option (list (string * yaml) * list string) :=
+  match n with
+  | 0 => Some ([], ts)
+  | S n' =>
+      match ts with
+      | String "S" h :: ts1 =>
+          match unhex h, p_yaml (S (List.length ts1)) ts1 with
+          | Some k, Some (y, ts2) =>
+              match p_entries n' ts2 with
+              | Some (es, ts3) => Some ((k, y) :: es, ts3)
+              | None => None
+              end
+          | _, _ => None
+          end
+      | _ => None
+      end
+  end.
+
+Definition p_counted {A} (p : nat -> list string -> option (A * list string)) (ts : list string) :=
+  match ts with
+  | n :: ts' => match nat_of_string n with Some n => p n ts' | None => None end
+  | [] => None
+  end.
+
+Fixpoint p_ops (f : nat) (ts : list string) : option (list cop) :=
+  match f with
+  | 0 => None
+  | S f' =>
+      match ts with
+      | [] => Some []
+      | op :: ts1 =>
+          if String.eqb op "new" then
+            match ts1 with
+            | a :: b :: c :: d :: ts2 =>
+                match p_opt_str a, p_opt_str b, p_opt_str c, p_opt_bool d, p_ops f' ts2 with
+                | Some a, Some b, Some c, Some d, Some r => Some (ONew a b c d :: r)
+                | _, _, _, _, _ => None
+                end
+            | _ => None
+            end
+          else if String.eqb op "load" then
+            match ts1 with
+            | String "S" h :: ts2 =>
+                match unhex h, p_counted p_entries ts2 with
+                | Some file, Some (es, ts3) => option_map (cons (OLoad file es)) (p_ops f' ts3)
+                | _, _ => None
+                end
+            | _ => None
+            end
+          else if String.eqb op "dict" then
+            match ts1 with
+            | String "S" h :: ts2 =>
+                match unhex h, p_counted p_entries ts2 with
+                | Some inv, Some (es, ts3) => option_map (cons (ODict inv es)) (p_ops f' ts3)
+                | _, _ => None
+                end
+            | _ => None
+            end
+          else if String.eqb op "regexp" then
+            match p_counted p_strs ts1 with
+            | Some (ps, ts2) => option_map (cons (OSetRegexp ps)) (p_ops f' ts2)
+            | None => None
+            end
+          else if String.eqb op "ignore" then
+            match ts1 with
+            | b :: ts2 => match p_bool b with Some b => option_map (cons (OSetIgnore b)) (p_ops f' ts2) | None => None end
+            | _ => None
+            end
+          else if String.eqb op "compose" then
+            match ts1 with
+            | b :: ts2 => match p_bool b with Some b => option_map (cons (OSetCompose b)) (p_ops f' ts2) | None => None end
+            | _ => None
+            end
+          else if String.eqb op "setflag" then option_map (cons OSetFlag) (p_ops f' ts1)
+          else if String.eqb op "unsetflag" then option_map (cons OUnsetFlag) (p_ops f' ts1)
+          else if String.eqb op "clearflags" then option_map (cons OClearFlags) (p_ops f' ts1)
+          else None
+      end
+  end.
+
+Fixpoint pair_up (l : list string) : list (string * string) :=
+  match l with
+  | a :: b :: l' => (a, b) :: pair_up l'
+  | _ => []
+  end.
+
+Definition tf (b : bool) : string := if b then "T" else "F".
+
+Definition canon_config (matches : string -> string -> bool) (probes : list string) (c : config) : string :=
+  (hx (cf_inv c) ++ " " ++ hx (cf_nodes c) ++ " " ++ hx (cf_classes c) ++ " " ++ tf (cf_ignore c) ++ tf (cf_compose c) ++
+   tf (cf_dots c) ++ " " ++ canon_strs (cf_reported c) ++ " B" ++
+   concat_str (map (fun n => tf (is_class_ignored matches c n)) probes))%string.
+
+Definition default_config : config :=
+  {| cf_inv := ""; cf_nodes := ""; cf_classes := ""; cf_ignore := false; cf_compose := false;
+     cf_reported := []; cf_compiled := []; cf_dots := false |}.
+
+Definition run_config (ts : list string) : string :=
+  match p_counted p_strs ts with
+  | Some (bad, ts1) =>
+      match p_counted p_strs ts1 with
+      | Some (mflat, ts2) =>
+          match p_counted p_strs ts2 with
+          | Some (probes, ts3) =>
+              match p_ops (S (List.length ts3)) ts3 with
+              | Some ops =>
+                  let compiles p := negb (mem p bad) in
+                  let mp := pair_up mflat in
+                  let matches p n := existsb (fun '(a, b) => String.eqb a p && String.eqb b n) mp in
+                  let fix go (ops : list cop) (c : config) (started : bool) : string :=
+                    match ops with
+                    | [] => ""
+                    | o :: ops' =>
+                        let '(c', ok) := cfg_step compiles c o in
+                        let started' := started || ok in
+                        ((if ok then " | ok " else " | err ") ++
+                         (if started' then canon_config matches probes c' else "-") ++ go ops' c' started')%string
+                    end in
+                  ("ok" ++ go ops default_config false)%string
+              | None => "badcase"
+              end
+          | None => "badcase"
+          end
+      | None => "badcase"
+      end
+  | None => "badcase"
+  end.
+
+Definition run_line5 (line : string) : string :=
+  match words line with
+  | id :: mode :: ts =>
+      if String.eqb mode "config" then (id ++ tab ++ run_config ts)%string
+      else run_line4 line
+  | _ => "badline"
+  end.
+
+(** * pynode op (C19): the parameters of a rendered node as Python objects *)
+From RV Require Import Model.Py.
+
+Fixpoint canon_py (o : pyobj) {struct o} : string :=
+  match o with
+  | PyNone => "N"
+  | PyBool true => "T"
+  | PyBool false => "F"
+  | PyInt z => ("I" ++ Z_to_string z)%string
+  | PyFloat f => "D?"
+  | PyStr s => ("Q" ++ hex s)%string
+  | PyList l =>
+      (("L" ++ nat_to_string (List.length l)) ++
+       (fix go (l : list pyobj) : string :=
+          match l with [] => "" | x :: xs => (" " ++ canon_py x ++ go xs)%string end) l)%string
+  | PyDict es =>
+      (("M" ++ nat_to_string (List.length es)) ++
+       (fix go (es : list (pyobj * pyobj)) : string :=
+          match es with [] => "" | (k, x) :: es' => (" " ++ canon_py k ++ " " ++ canon_py x ++ go es')%string end) es)%string
+  end.
+
+Definition run_pynode (ts : list string) : string :=
+  (* same case layout as inv mode, op = pynode S<name> *)
+  match ts with
+  | ig :: co :: dots :: ts1 =>
+      match p_bool ig, p_bool co, p_bool dots with
+      | Some ig, Some co, Some dots =>
+          match p_counted p_strs ts1 with
+          | Some (_, ts2) =>
+              match p_counted p_strs ts2 with
+              | Some (matches, ts3) =>
+                  match p_count_files ts3 with
+                  | Some (cfiles, ts4) =>
+                      match p_count_files ts4 with
+                      | Some (nfiles, [op; String "S" h]) =>
+                          match unhex h with
+                          | Some name =>
+                              let cfg := {| c_ignore := ig; c_matches := matches; c_compose := co; c_literal_dots := dots |} in
+                              match ('(nt, ct) <- (nt <- node_table co nfiles ;; ct <- class_table cfiles ;; Ok (nt, ct)) ;;
+                                     render_node inc_fuel run_fuel cfg "<NODES>" nt ct name) with
+                              | Ok i =>
+                                  match as_py_obj (VMap (ni_params i)) with
+                                  | PyOk o => ("ok P " ++ canon_py o ++ " C " ++ canon_strs (ni_classes i) ++ " A " ++ canon_strs (ni_apps i))%string
+                                  | PyTypeError => "raise TypeError"
+                                  | PyPanic => "panic PyValueList"
+                                  end
+                              | r => canon_res (fun _ => "") r
+                              end
+                          | None => "badcase"
+                          end
+                      | _ => "badcase"
+                      end
+                  | None => "badcase"
+                  end
+              | None => "badcase"
+              end
+          | None => "badcase"
+          end
+      | _, _, _ => "badcase"
+      end
+  | _ => "badcase"
+  end.
+
+Definition is_pynode_line (ts : list string) : bool :=
+  match rev ts with
+  | _ :: op :: _ => String.eqb op "pynode"
+  | _ => false
+  end.
+
+Definition run_line6 (line : string) : string :=
+  match words line with
+  | id :: mode :: ts =>
+      if String.eqb mode "inv" && is_pynode_line ts then (id ++ tab ++ run_pynode ts)%string
+      else run_line5 line
+  | _ => "badline"
+  end.
